@@ -5,7 +5,7 @@
    until the faulty one reports E_Io.  The C08 theorems (proved under no_fail) are transported to
    arbitrary schedules. *)
 From JV Require Import Bytes Tables BinPrim BufWin BinLexer BinReader.
-From JV.proofs Require Import BinLexProofs BufWinProofs BinStreamProofs FaultProofs.
+From JV.proofs Require Import BinLexProofs BufWinProofs BinStreamProofs BinRSkipProofs FaultProofs.
 From Coq Require Import List NArith Bool Lia Arith.
 Import ListNotations.
 Open Scope nat_scope.
@@ -798,3 +798,58 @@ Qed.
 Theorem bin_read_bytes_io_kept n s s' d pos c :
   st_okf s d pos c -> rdr_read_bytes n s = (Err E_Io, s') -> st_okf s' d pos c.
 Proof. intros Hok E. eapply kept_okf; [apply (rdr_read_bytes_io_kept n); exact E|exact Hok]. Qed.
+
+(* ---------- skip_container / read_bytes against their fault-free specifications ---------- *)
+(* instance 3: the reader stands inside the data d that was pending at position pos *)
+Definition within (d : bytes) (pos c : nat) (b : bufwin) (r : rd) : Prop :=
+  exists pre, d = pre ++ win b ++ rest r /\ bw_position b = pos + length pre /\ cap b = c.
+
+Lemma bw_fill_kept b r :
+  match bw_fill_buf b r with FillOk _ b' r' | FillIo b' r' | FillFull b' r' => kept (b, r) (b', r') end.
+Proof.
+  pose proof (rdr_fill_kept (b, r)) as K. unfold rdr_fill in K. cbn [fst snd] in K.
+  destruct (bw_fill_buf b r) as [n b' r'|b' r'|b' r']; [destruct (Nat.eqb n 0)| |]; exact K.
+Qed.
+
+Lemma within_adv d pos c b r adv : adv <= length (win b) -> within d pos c b r ->
+  within d pos c (mkbw (cap b) (skipn adv (win b)) (consumed b + adv) (prior b)) r.
+Proof.
+  intros Hadv (pre & Hd & Hpos & Hc). exists (pre ++ firstn adv (win b)). cbn [win cap]. split.
+  - rewrite <- app_assoc. rewrite (app_assoc (firstn adv (win b))), firstn_skipn. exact Hd.
+  - rewrite app_length, firstn_length. unfold bw_position in *. cbn [prior consumed]. split; [lia|exact Hc].
+Qed.
+
+Lemma within_fill d pos c b r : within d pos c b r ->
+  match bw_fill_buf b r with FillOk _ b' r' | FillIo b' r' | FillFull b' r' => within d pos c b' r' end.
+Proof.
+  intros (pre & Hd & Hpos & Hc). pose proof (bw_fill_kept b r) as K.
+  assert (G : forall b' r', kept (b, r) (b', r') -> within d pos c b' r').
+  { intros b' r' (K1 & K2 & K3). unfold rdr_pending, rdr_position in *. cbn [fst snd] in *.
+    exists pre. rewrite K1, K2, K3. auto. }
+  destruct (bw_fill_buf b r); apply G; exact K.
+Qed.
+
+Lemma within_start s d pos c : st_okf s d pos c -> within d pos c (fst s) (snd s).
+Proof.
+  intros (H1 & H2 & H3). exists []. unfold rdr_pending, rdr_position in *. cbn [app length].
+  split; [symmetry; exact H1|]. split; [lia|exact H3].
+Qed.
+
+(* skip_container under ANY schedule, called just after an Open, buffer fitting the pending data,
+   matching close present: the skip lands exactly where token counting lands, or reports the I/O
+   error from a position inside the skipped data (nothing lost or reordered). *)
+Theorem bin_skip_container_fault_lands s d pos c r :
+  st_okf s d pos c -> fits c d = true -> balanced_read d = Some r ->
+  (exists s', rdr_skip_container s = (Err E_Io, s') /\ within d pos c (fst s') (snd s')) \/
+  (exists s', rdr_skip_container s = (Ok tt, s') /\ st_okf s' r (pos + (length d - length r)) c).
+Proof.
+  intros Hok Hfit Hbal.
+  destruct (reader_skip_lands (twin s) d pos c r (st_okf_twin _ _ _ _ Hok) Hfit Hbal) as (s2' & E2 & Hok2).
+  pose proof (rdr_skip_container_inv (within d pos c) (within_adv d pos c) (within_fill d pos c) s
+                (within_start _ _ _ _ Hok)) as Hw. unfold res_inv, PS in Hw.
+  destruct (rdr_skip_container_lock s (twin s) (steq_twin s)) as [Hio|[Ho Hq]].
+  - left. destruct (rdr_skip_container s) as [o s']. unfold is_io in Hio. cbn [fst snd] in *. subst o.
+    exists s'. split; [reflexivity|exact Hw].
+  - right. rewrite E2 in Ho, Hq. destruct (rdr_skip_container s) as [o s']. cbn [fst snd] in *. subst o.
+    exists s'. split; [reflexivity|]. eapply st_okf_steq; eassumption.
+Qed.
